@@ -61,18 +61,24 @@ package consolidation
 // ---- exec: the Execute loop (C05 / C06 / C03) -----------------------------------------------------------
 //@ define sessionJobsOK(ssn *framework.Session) bool = (forall k in ssn.ClusterInfo.PodGroupInfos :: podgroup_info.allTasksOK(ssn.ClusterInfo.PodGroupInfos[k]) && podgroup_info.setsOK(ssn.ClusterInfo.PodGroupInfos[k])) && (forall q in ssn.ClusterInfo.Queues :: ssn.ClusterInfo.Queues[q] != nil)
 
-// Glue around solvers.(*JobSolver).Solve (through attemptToConsolidatePreemptor). ASSUMED (trusted), see the note.
+//@ import solvers "github.com/NVIDIA/KAI-scheduler/pkg/scheduler/actions/common/solvers"
+// One job: the body (GPU gate, then attemptToConsolidatePreemptor -> solvers.(*JobSolver).Solve) is verified; only the
+// two facts named by `trust` are assumed (exec2; the whole function was `trusted` before).
+// C03: a job is reported as served only if its gang is satisfied in the state the returned statement describes.
 // C06: "Every such eviction is committed together with the bind or nomination of the workload it was made
 // for": the statement handed back with success is the solver's statement and meets the preconditions of
 // (*Statement).Commit. The ghost mark common.failedAttempt records the outcome for the caller's table.
 //@ func attemptToConsolidateForPreemptor
-//@   props C05 C06 C03
-//@   trusted
-//@   note not verified: [successIsCommittable] is not derivable from the contract of (*JobSolver).Solve (its result0 is computed from the job's counters after whole-heap havocs; "solved ==> the returned statement is the open, well-formed, flat log of the last prefix" needs the unmechanised exact-restoration argument of C13 - helper solver). [outcomeRecorded] only defines the ghost mark.
-//@   requires ssn != nil && job != nil
+//@   props C05 C06 C03 C10
+//@   usestable Session.ClusterInfo
+//@   requires ssn != nil && ssn.ClusterInfo != nil && job != nil
 //@   modifies *
-//@   ensures [successIsCommittable] result0 ==> result1 != nil && framework.commitReady(result1) && framework.wfLog(result1) && framework.flatLog(result1)
-//@   ensures [outcomeRecorded] common.failedAttempt(job) == !result0
+//@   ensures [failedHasNoStatement] !result0 ==> result1 == nil
+//@   ensures [successMeansGangSatisfied] result0 ==> solvers.gangSat(job)
+//@   trust [successIsCommittable] result0 ==> result1 != nil && framework.commitReady(result1) && framework.wfLog(result1) && framework.flatLog(result1)
+//@   note trust [successIsCommittable]: not derivable from the contract of (*JobSolver).Solve (its result0 is computed from the job's counters after whole-heap havocs; "solved ==> the returned statement is the open, well-formed, flat log of the last prefix" needs the unmechanised exact-restoration argument of C13 - helper solver)
+//@   trust [outcomeRecorded] common.failedAttempt(job) == !result0
+//@   note trust [outcomeRecorded]: definition of the ghost mark (a ghost can only be written by an assumed clause); it carries "this job's attempt just failed" to the precondition [recordsOnlyFailedJobs] of UpdateRepresentative
 //@ end
 
 // C05: "scheduling-signature skipping must only prune hopeless scenarios". Consolidation victims are every
@@ -84,6 +90,8 @@ package consolidation
 // reached only with a statement a successful attempt returned (preconditions of Commit, proved at the call
 // site); only a job whose attempt just failed is recorded (precondition [recordsOnlyFailedJobs] of
 // UpdateRepresentative, proved at the call site). No panic on any path (a non-empty order yields a job).
+// C05 "within one cycle": when consolidation is enabled the action ends only when the job order is empty - every candidate
+// job was popped and either skipped for the reason above or attempted ([orderDrained]).
 //@ func (*consolidationAction).Execute
 //@   props C05 C06 C03
 //@   usestable
@@ -95,5 +103,6 @@ package consolidation
 //@   loop 1
 //@     modifies *
 //@     invariant [tableWellFormed] common.repsWF(smallestFailedJobs)
+//@   ensures [orderDrained] ssn.GetMaxNumberConsolidationPreemptees() != 0 ==> utils.orderEmpty(jobsOrderByQueues)
 //@ end
 // ---- end exec ----
